@@ -3,11 +3,15 @@ package props
 import (
 	"bytes"
 	"crypto/ed25519"
+	"crypto/rsa"
+	"encoding/pem"
 	"errors"
 	"fmt"
+	"math/big"
 	"os"
 	"path/filepath"
 	"strings"
+	"sync"
 	"testing"
 
 	"filippo.io/age"
@@ -31,8 +35,45 @@ type c19Case struct {
 	Type       string `json:"type"` // ed25519 | rsa
 	Mismatched bool   `json:"mismatched"`
 	// CrossType: the key file holds a key of the other SSH type than the declared public key
-	CrossType bool        `json:"crossType,omitempty"`
+	CrossType bool `json:"crossType,omitempty"`
+	// Sibling (rsa only): the key file holds another valid RSA key pair with the declared key's modulus and a different public exponent
+	Sibling bool `json:"sibling,omitempty"`
+	// SharedBuf: the passphrase callback hands out the same byte slice every time
+	SharedBuf bool        `json:"sharedBuf,omitempty"`
 	Actions   []c19Action `json:"actions"`
+}
+
+// c19Sibling: RSA[0]'s modulus with another public exponent, and its passphrase-protected key file.
+var c19SiblingOnce sync.Once
+var c19SiblingKey *rsa.PrivateKey
+var c19SiblingPEM []byte
+
+func c19SiblingRSA() (*rsa.PrivateKey, []byte) {
+	c19SiblingOnce.Do(func() {
+		k := hx.ThePool().RSA[0]
+		p1 := new(big.Int).Sub(k.Primes[0], big.NewInt(1))
+		q1 := new(big.Int).Sub(k.Primes[1], big.NewInt(1))
+		phi := new(big.Int).Mul(p1, q1)
+		for _, e := range []int64{3, 5, 17, 257, 65539, 65543, 65551} {
+			d := new(big.Int).ModInverse(big.NewInt(e), phi)
+			if d == nil {
+				continue
+			}
+			sk := &rsa.PrivateKey{PublicKey: rsa.PublicKey{N: k.N, E: int(e)}, D: d, Primes: []*big.Int{k.Primes[0], k.Primes[1]}}
+			sk.Precompute()
+			if sk.Validate() != nil {
+				continue
+			}
+			blk, err := ssh.MarshalPrivateKeyWithPassphrase(sk, "", []byte(hx.SSHPassphrase))
+			if err != nil {
+				continue
+			}
+			c19SiblingKey, c19SiblingPEM = sk, pem.EncodeToMemory(blk)
+			return
+		}
+		panic("no sibling exponent found")
+	})
+	return c19SiblingKey, c19SiblingPEM
 }
 
 func c19Spec(typ, who string) hx.RecSpec {
@@ -70,7 +111,16 @@ func c19File(c c19Case, a c19Action, n int) ([]byte, []byte) {
 			}
 			sts = append(sts, st)
 		case "stored":
-			// a stanza for the key the (cross-type) key file really holds
+			// a stanza for the key the (cross-type or sibling) key file really holds
+			if c.Sibling {
+				sk, _ := c19SiblingRSA()
+				st, err := refage.WrapSSHRSA(fk, bytes.NewReader(hx.PRG(uint64(n*10+i), 64)), &sk.PublicKey)
+				if err != nil {
+					panic(err)
+				}
+				sts = append(sts, st)
+				break
+			}
 			sts = append(sts, refStanza(p, hx.RecSpec{Kind: other, Idx: 0}, fk, uint64(n*10+i))...)
 		case "Abits":
 			// a stanza for C whose tag is A's tag with the unused low bits of its last base64 character set
@@ -123,13 +173,20 @@ func c19Check(c c19Case, st *stats.Run) error {
 	if c.CrossType {
 		pem = map[string][]byte{"ed25519": p.RSAEncPEM[0], "rsa": p.EdEncPEM[0]}[c.Type]
 	}
-	mismatched := c.Mismatched || c.CrossType
+	if c.Sibling && c.Type == "rsa" {
+		_, pem = c19SiblingRSA()
+	}
+	mismatched := c.Mismatched || c.CrossType || (c.Sibling && c.Type == "rsa")
+	shared := []byte(hx.SSHPassphrase)
 	prompts := 0
 	answer := "right"
 	id, err := agessh.NewEncryptedSSHIdentity(pub, pem, func() ([]byte, error) {
 		prompts++
 		switch answer {
 		case "right":
+			if c.SharedBuf {
+				return shared, nil
+			}
 			return []byte(hx.SSHPassphrase), nil
 		case "wrong":
 			return []byte("not the passphrase"), nil
@@ -232,11 +289,30 @@ func c19Check(c c19Case, st *stats.Run) error {
 			}
 		}
 	}
+	if c.SharedBuf {
+		// another identity served by the same callback (the caller's buffer) still opens its file
+		var pub2 ssh.PublicKey
+		var pem2 []byte
+		if c.Type == "ed25519" {
+			pub2, pem2 = hx.SSHPub(p.Ed[0]), p.EdEncPEM[0]
+		} else {
+			pub2, pem2 = hx.SSHPub(p.RSA[0]), p.RSAEncPEM[0]
+		}
+		id2, err := agessh.NewEncryptedSSHIdentity(pub2, pem2, func() ([]byte, error) { return shared, nil })
+		if err != nil {
+			return pbt.Failf("C19/harness", "%v", err)
+		}
+		file, plain := c19File(c, c19Action{Stanzas: []string{"A"}}, 99)
+		got, derr, _ := decryptLib(file, hx.Delivery{Mode: "whole"}, []int{4096}, false, id2)
+		if derr != nil || !bytes.Equal(got, plain) {
+			return pbt.Failf("C19/history-dependent-outcome", "after the history %+v, a fresh identity whose callback returns the caller's same passphrase slice (now %q) cannot open its own file: %v", c.Actions, shared, derr)
+		}
+	}
 	first := earlierFailure
 	if first == "" {
 		first = "none"
 	}
-	st.Case(nontrivial, stats.HashJSON(c), "type="+c.Type, fmt.Sprintf("mismatched=%v", mismatched), fmt.Sprintf("cross-type-key-file=%v", c.CrossType), "first-failure="+first, fmt.Sprintf("actions=%d", len(c.Actions)))
+	st.Case(nontrivial, stats.HashJSON(c), "type="+c.Type, fmt.Sprintf("mismatched=%v", mismatched), fmt.Sprintf("cross-type-key-file=%v", c.CrossType), fmt.Sprintf("sibling-rsa-key-file=%v", c.Sibling && c.Type == "rsa"), fmt.Sprintf("shared-passphrase-slice=%v", c.SharedBuf), "first-failure="+first, fmt.Sprintf("actions=%d", len(c.Actions)))
 	st.Sample(fmt.Sprintf("%s/mismatched=%v/first-failure=%s", c.Type, mismatched, first), c)
 	return nil
 }
@@ -303,6 +379,8 @@ func c19CheckCLI(c c19CLI, st *stats.Run) error {
 func c19Gen(t *rapid.T) c19Case {
 	c := c19Case{Type: rapid.SampledFrom([]string{"ed25519", "ed25519", "rsa"}).Draw(t, "type"), Mismatched: rapid.Bool().Draw(t, "mismatched")}
 	c.CrossType = rapid.IntRange(0, 3).Draw(t, "crossType") == 0
+	c.Sibling = c.Type == "rsa" && !c.CrossType && rapid.IntRange(0, 2).Draw(t, "sibling") == 0
+	c.SharedBuf = rapid.IntRange(0, 2).Draw(t, "sharedBuf") == 0
 	n := rapid.IntRange(1, 6).Draw(t, "nactions")
 	for i := 0; i < n; i++ {
 		var a c19Action
@@ -354,6 +432,26 @@ func TestC19(t *testing.T) {
 			}
 		}
 		s.St.Exhaust("all two-call histories over 10 files x {right, wrong, empty passphrase} first answers; matching key file, mismatched key file of the same type, key file of the other SSH type (ssh-ed25519 identity)", int64(n))
+	}, check)
+	pbt.Each(s, "histories-exhaustive", func(yield func(c19Case)) {
+		n := 0
+		for _, f1 := range [][]string{{"A"}, {"stored"}, {"B", "A"}} {
+			for _, f2 := range [][]string{{"A"}, {"stored"}, {"B"}} {
+				if s.Mine(n) {
+					yield(c19Case{Type: "rsa", Sibling: true, SharedBuf: n%2 == 0, Actions: []c19Action{{f1, "right"}, {f2, "right"}, {[]string{"A"}, "right"}}})
+				}
+				n++
+			}
+		}
+		for _, mm := range []bool{false, true} {
+			for _, a1 := range []string{"right", "wrong"} {
+				if s.Mine(n) {
+					yield(c19Case{Type: "ed25519", Mismatched: mm, SharedBuf: true, Actions: []c19Action{{[]string{"A"}, a1}, {[]string{"A"}, "right"}}})
+				}
+				n++
+			}
+		}
+		s.St.Exhaust("ssh-rsa identity whose key file holds a same-modulus key with another exponent: 9 three-call histories over files for the declared and for the stored key; callbacks that hand out one shared passphrase slice", int64(n))
 	}, check)
 	pbt.Each(s, "histories-cli", func(yield func(c19CLI)) {
 		n := 0
